@@ -131,22 +131,33 @@ func cmdWTrace(args []string) int {
 			}
 		}(c)
 	}
-	wg.Add(1)
-	go func() {
-		defer wg.Done()
-		for i := 0; i < *nAdmin; i++ {
-			rmu.Lock()
-			d := time.Duration(rng.Intn(400)) * time.Microsecond
-			snap := rng.Intn(2) == 0
-			rmu.Unlock()
-			time.Sleep(d)
-			if snap {
-				e.SaveSnapshot()
-			} else {
-				e.RewriteAOF()
+	// one requester, or two when at least two requests are made: OVERLAPPING snapshot and compaction requests -- the second one is refused
+	// by BeginSnapshotMode and must leave the first one's snapshot mode alone
+	requesters := 1
+	if *nAdmin >= 2 {
+		requesters = 2
+	}
+	for a := 0; a < requesters; a++ {
+		wg.Add(1)
+		go func(a int) {
+			defer wg.Done()
+			for i := a; i < *nAdmin; i += requesters {
+				rmu.Lock()
+				d := time.Duration(rng.Intn(400)) * time.Microsecond
+				snap := rng.Intn(2) == 0
+				rmu.Unlock()
+				if requesters == 2 {
+					snap = a == 0
+				}
+				time.Sleep(d)
+				if snap {
+					e.SaveSnapshot()
+				} else {
+					e.RewriteAOF()
+				}
 			}
-		}
-	}()
+		}(a)
+	}
 	if *closeEarly {
 		rmu.Lock()
 		d := time.Duration(200+rng.Intn(1500)) * time.Microsecond
